@@ -171,7 +171,7 @@ CASE_TIMEOUT = {"quick": 30, "thorough": 120}
 CONFIGS = ["default", "release"]
 SHRINK = True
 
-LEVEL_TEXT = ("Machine-checked Coq theorems (83 pinned statements) about an abstract machine that transcribes integer/src/buffer.rs and repr.rs "
+LEVEL_TEXT = ("Machine-checked Coq theorems (105 pinned statements) about an abstract machine that transcribes integer/src/buffer.rs and repr.rs "
               "(every assert!, debug_assert! and unsafe-block precondition is an explicit guard, the allocator is a ghost heap): Repr::from_buffer "
               "establishes the representation invariant from any owned buffer; construction, clone, clone_from between values of any sizes (also "
               "statics), ones, drop, move, swap, neg, abs, the thirteen binary operators (+ - * & | ^ / % and the signed ones) in every call form, "
@@ -199,7 +199,18 @@ LEVEL_TEXT = ("Machine-checked Coq theorems (83 pinned statements) about an abst
               "its inner multiplications. Scratch memory: root::memory_requirement_sqrt_rem covers the whole Karatsuba-sqrt recursion and "
               "modular::mul_memory_requirement covers mul_normalized / sqr_normalized for every length (over the peak models of C02, whose "
               "sufficiency theorems for division and multiplication are cited); requirement monotonicity is proved. The new fragments are "
-              "regenerated into coq/gen/StorageGen4.v.")
+              "regenerated into coq/gen/StorageGen4.v. Round 5: the parser of texts of ANY length in a radix that is not a power of two is a "
+              "step of the machine (StorageOps5.v: parse_word with its checked word arithmetic, rchunks / parse_chunk at byte level, parse_large's "
+              "vector of radix powers - range_per_word^256 and its repeated squares -, parse_large_divide_conquer): `bytes.len() - 1` and the shift "
+              "amounts are in range, the loop ends within w iterations, `chunk_bytes << powers` never wraps, every debug_assert and split_at holds "
+              "at every node of the recursion, every partial result and every power is freed exactly once also on the `?` exits; step and "
+              "history theorems are restated for the extended machine. The printers of such radixes are modelled at value level "
+              "(FmtBounds5.v) and proved for every word base and radix: the dispatch test len * (digits_per_word + 1) <= 16 * digits_per_word "
+              "implies the bound under which PreparedMedium keeps low_groups[..] / the 16-word chunk buffer in bounds and never reads "
+              "buffer[-1]; PreparedLarge::new's ladder of squares (length test sound, `2 * len - 1` no underflow, fuel) leaves every big chunk "
+              "below its power and the top chunk below range_per_word^16; write_big_chunk / write_chunk (assert_eq!(buffer_len, 0)); "
+              "PreparedWord's digit array of MAX_WORD_DIGITS_NON_POW_2 bytes is never underrun. Tests, lengths and exponents of both are "
+              "regenerated into coq/gen/StorageGen5.v.")
 LEVEL_NOTE = ("PARTIAL: the theorems are about the abstract machine, not about the Rust unsafe blocks themselves (pointer arithmetic, transmute "
               "layout equality, realloc are outside every theorem; the guard allocator with red zones, poisoning and a quarantine searches for "
               "their failures, and the thorough tier runs the corpus and threshold histories under cargo +nightly miri as SUPPORT). Word contents "
@@ -207,10 +218,13 @@ LEVEL_NOTE = ("PARTIAL: the theorems are about the abstract machine, not about t
               "stated for histories whose sqrt operands meet it along the run; all other steps need no premise), and the Lehmer kernel "
               "gcd::gcd_in_place still enters as a parameter constrained by its length contract. Still only compared (invariant + ledger + value "
               "after every step): nth_root for n >= 3 (Newton iteration over pow / div / add), the inverse and the Reducer-trait entry points of the "
-              "rings (inv, rmul, rinv, rpow, rneg; the extended Lehmer gcd), parsing beyond 256 words-groups (divide and conquer over mul), "
-              "formatting (to_string builds Strings, not word buffers), signed-byte conversions, and the scratch memory of gcd.")
+              "rings (inv, rmul, rinv, rpow, rneg; the extended Lehmer gcd), signed-byte conversions, the scratch memory of gcd, and of the "
+              "printers: PreparedDword (three-part split), the digit loops of the power-of-two printers (only the width and the first bit count of PreparedLarge are proved) and DoubleEnd, the DigitWriter buffer; the "
+              "printer theorems of round 5 are value-level models tied to the source by the regenerated tests / array lengths and by the "
+              "to_string -> from_str_radix round trips of the histories only (the harness does not observe the printers' internals). The "
+              "parser theorems assume the text is shorter than 2^(w-1) bytes (isize::MAX) and usize = one word.")
 TECHNIQUE = ("Coq proof over an abstract storage machine and an offset / peak machine of the scratch allocator (invariants by induction over histories / "
-             "recursion depth; value-level length lemmas where indices depend on contents), fragments regenerated from the source, + "
+             "recursion depth / the slice of radix powers; value-level length and digit-count lemmas where indices depend on contents), fragments regenerated from the source, + "
              "extracted-machine correspondence run under a guard allocator")
 RULE = ("a case is a history of 1-40 steps over a pool of 4 values; steps = constructors (from_words with padding, bytes, primitives, ones, "
         "statics) x arithmetic/bit/shift operations in every call form (vv vr rv rr and the assigning forms, also with both operands the same "
@@ -218,7 +232,8 @@ RULE = ("a case is a history of 1-40 steps over a pool of 4 values; steps = cons
         "sqrt/isqrt/sqrt_rem (3, 4, odd/even lengths, every shift class, perfect squares +-1) x ring steps (new, new(0), reduce, mul, clone_from "
         "between rings of equal/different lengths, rem/div by the ConstDivisor, pow) x IBig & | ^ ! >> << with negative operands x "
         "from_str_radix of generated texts (digit counts at digits_per_word and word boundaries, separators, an invalid digit first/last/middle; "
-        "radix 2..36) x to_chunks/from_chunks; "
+        "radix 2..36; round 5: texts beyond 256 groups at chunk_bytes << k -1/0/+1 for one, two and three radix powers, an invalid digit in "
+        "the first / last / a middle chunk) x to_chunks/from_chunks; "
         "sizes drawn from word counts {0,1,2,3,4,5,7,8,9,16,17,24,25,31,32,33,48,64,100} and from positions that move a value across the "
         "inline/heap boundary (2<->3 words) and across the reallocation thresholds (len = capacity, capacity = max_compact_capacity(len) +-1; "
         "pow exponents at wexp -1/0/+1, 2 wexp, quotient 2^j -1/0/+1). One case in 40 is a scratch probe `scr la lb` (lb at the schoolbook / "
@@ -226,14 +241,16 @@ RULE = ("a case is a history of 1-40 steps over a pool of 4 values; steps = cons
         "one value lived on the heap (resp. scratch memory was needed); distinct = distinct case texts.")
 EXPLANATION = ("Theorems (coq/props/C17.v) are about the storage machine of coq/theories/Int/StorageModel.v + StorageOps2.v and the scratch offset "
                "machine of ScratchModel.v; coq/gen/StorageGen.v is regenerated from the Rust sources at plug-in import (status in the evidence). "
-               "Round 4: StorageOps3.v (+ coq/gen/StorageGen4.v, ScratchOps3.v over C02's peak models). "
+               "Round 4: StorageOps3.v (+ coq/gen/StorageGen4.v, ScratchOps3.v over C02's peak models). Round 5: StorageOps5.v (the parser of texts "
+               "of any length as ONE machine step: exact capacities of the result are compared like for every other step; path letters P / Q / R "
+               "= one / two / three and more radix powers, E = invalid text) and FmtBounds5.v (+ coq/gen/StorageGen5.v). "
                "Tie: after every step of every history the harness reports the layout of all values and the allocator ledger; the oracle checks "
                "them against the extracted layout specification and runs the extracted machine beside the implementation (exact capacities = "
                "fidelity statistic; for gcd either buffer may hold the result). Scratch probes compare the reserved words with the regenerated "
                "formula and the smallest working block (bisection with verif_hooks::mul_kernel_scratch) with the demand of the modelled plans.")
 TRUSTED_BASE = [
     "Coq 8.16.1 kernel",
-    "the transcription of buffer.rs / repr.rs / memory.rs and of the buffer handling of add_ops, mul_ops, div_ops, shift_ops, bits.rs, pow.rs, gcd_ops.rs, root_ops.rs, div_const.rs, modular/*.rs, parse/*.rs, convert.rs (chunks) into coq/theories/Int/StorageModel.v, StorageOps2.v, StorageOps3.v, ScratchModel.v, ScratchOps3.v (round 4 fragments regenerated by tools/translate_c17_r4.py into coq/gen/StorageGen4.v; the peak models of division / multiplication scratch memory and their sufficiency theorems are those of C02: Int/DivMemModel.v, DivMemProofs.v) (by hand; compared on every run: exact capacities, exact scratch demand); formulas, tests, thresholds and allocation sizes are regenerated (tools/translate_c17_r3.py, a small expression translator) and tied by C17_tie_*",
+    "the transcription of buffer.rs / repr.rs / memory.rs and of the buffer handling of add_ops, mul_ops, div_ops, shift_ops, bits.rs, pow.rs, gcd_ops.rs, root_ops.rs, div_const.rs, modular/*.rs, parse/*.rs, convert.rs (chunks) into coq/theories/Int/StorageModel.v, StorageOps2.v, StorageOps3.v, StorageOps5.v, FmtBounds5.v (printers, value level), ScratchModel.v, ScratchOps3.v (round 5 fragments regenerated by tools/translate_c17_r5.py into coq/gen/StorageGen5.v; round 4 fragments regenerated by tools/translate_c17_r4.py into coq/gen/StorageGen4.v; the peak models of division / multiplication scratch memory and their sufficiency theorems are those of C02: Int/DivMemModel.v, DivMemProofs.v) (by hand; compared on every run: exact capacities, exact scratch demand); formulas, tests, thresholds and allocation sizes are regenerated (tools/translate_c17_r3.py, a small expression translator) and tied by C17_tie_*",
     "extraction: ExtrOcamlBasic + ExtrOcamlZBigInt + coq/extract/FastZ.v; OCaml 4.13.1 + zarith; oracle/common.ml, oracle/driver_c17.ml (the value semantics of the steps are zarith arithmetic in the driver)",
     "Rust harness harness/src/bin/c17.rs incl. its guard/counting #[global_allocator] (red zones, poisoning, quarantine, realloc always moves); verif_hooks::repr_layout_ibig, mul_kernel_scratch, mul_scratch_words",
     "Box<[Word]> (std): clone allocates exactly len words, clone_from copies in place iff the lengths agree, drop frees len words (modelled, not proved about std)",
